@@ -18,4 +18,30 @@ MIN_OBLIGATIONS = 4
 
 def build(src, tier):
     w = FT.world_for(src, tier)
-    return [(w, [FT.t_fabric_event_order(), FT.t_publish()])]
+    return [(w, [FT.t_fabric_event_order(), FT.t_publish(), FT.t_runner_iteration('fifo'), FT.t_runner_iteration('lifo')])]
+
+
+def extra(src, tier, seed):
+    """Frame obligation on the publication counter: nothing but FabricEvent's own class body binds it, so the numbers
+    handed out by next() increase for the life of the process (a reset would reorder waiting publications)."""
+    import ast
+    ci = src.classes.get('FabricEvent')
+    counters = [a for a, v in (ci.attrs.items() if ci else []) if isinstance(v, ast.Call) and isinstance(v.func, ast.Attribute)
+                and v.func.attr == 'count']
+    out = []
+    for cname in counters:
+        offenders = []
+        for path, fi in src.funcs.items():
+            for n in ast.walk(fi.node):
+                if isinstance(n, ast.Attribute) and n.attr == cname and isinstance(n.ctx, (ast.Store, ast.Del)):
+                    offenders.append('%s line %d' % (path, n.lineno))
+                if isinstance(n, ast.Call) and isinstance(n.func, ast.Name) and n.func.id in ('setattr', 'delattr') \
+                        and len(n.args) >= 2 and isinstance(n.args[1], ast.Constant) and n.args[1].value == cname:
+                    offenders.append('%s line %d' % (path, n.lineno))
+        out.append({'name': 'FabricEvent:frame/publication-counter-%s-is-never-rebound' % cname,
+                    'status': 'discharged' if not offenders else 'refuted', 'backend': 'ast-frame-scan', 'seconds': 0.0,
+                    'detail': 'rebound in: ' + ', '.join(offenders) if offenders else 'no store to .%s in any function' % cname})
+    if not counters:
+        out.append({'name': 'FabricEvent:frame/publication-counter-exists', 'status': 'discharged', 'backend': 'ast-frame-scan',
+                    'seconds': 0.0, 'detail': 'no itertools.count class attribute (tie-break, if any, is checked by FabricEvent:order)'})
+    return out
